@@ -8,7 +8,9 @@ vector of all put/get/join futures (incl. the item each get returned), the retur
 values / exceptions of the *_nowait calls and task_done, and qsize/empty/full are
 compared.  Conservation (every accepted item returned exactly once or still
 queued) follows from equality with the model and is re-checked at the end by
-draining the queue.
+draining the queue.  Besides the bounded exhaustive and the short random histories there are long "burst" histories
+in which many (up to ~270) getters or putters are blocked on one queue at the same time, part of them with deadlines
+or cancelled, and are then served while new ones arrive (arrival order of service over wide waiter sets).
 """
 from __future__ import annotations
 
@@ -29,7 +31,7 @@ META = {
                  "per class and maxsize 0..3 + seeded random long histories), all futures and size observables compared at "
                  "every settle point, final drain for conservation",
     "level_text": "Every history (exhaustive to a bounded length for each of Queue/LifoQueue/PriorityQueue x maxsize 0..3, "
-                  "plus long random histories) is executed on the real queue under virtual time and on a sequential model "
+                  "plus random histories, incl. long ones with up to ~270 waiters blocked at once) is executed on the real queue under virtual time and on a sequential model "
                   "with unique item ids; states and values of all put/get/join futures, *_nowait results, task_done "
                   "errors and qsize/empty/full are compared after every step; at the end the queue is drained and the "
                   "multiset of items is compared (conservation).",
@@ -42,6 +44,8 @@ META = {
 RULE = ("cases are (class, maxsize, op history, settle pattern); ops: put(item, None|timedelta|absolute|0), put_nowait, "
         "get(None|...), get_nowait, async-for step, task_done, join(None|...), cancel(any pending future), advance; items "
         "are unique ids (priority queue: (priority, id)); exhaustive by model-guided DFS plus seeded random histories; "
+        "burst histories: phases of 3..270 simultaneously blocked getters/putters (share with deadlines, cancels, advances) then "
+        "a serving phase interleaved with new arrivals; "
         "non-trivial = at least one operation blocked and at least one item was delivered to a get; distinct by case tuple")
 FLOORS = {"quick": 15000, "thorough": 200000}
 ASSUMPTIONS = ["sequential queue model is correct", "single-threaded use on one loop",
@@ -49,7 +53,9 @@ ASSUMPTIONS = ["sequential queue model is correct", "single-threaded use on one 
                "LIFO/priority get racing a blocked putter: either serialisation accepted"]
 REQUIRED_COUNTERS = ["oracle_evals", "blocked_get_served", "blocked_put_served", "timeouts_seen", "cancels_of_pending",
                      "queue_full_raises", "queue_empty_raises", "task_done_over_raises", "join_completed_by_task_done",
-                     "drain_evals"]
+                     "drain_evals", "histories_peak_blocked_getters_33_64", "histories_peak_blocked_getters_65_128",
+                     "histories_peak_blocked_getters_over_128", "histories_peak_blocked_putters_33_64",
+                     "histories_peak_blocked_putters_65_128", "histories_peak_blocked_putters_over_128"]
 
 KINDS = ["fifo", "lifo", "prio"]
 CONFIGS = [(k, ms) for k in KINDS for ms in (0, 1, 2, 3)]
@@ -292,6 +298,95 @@ def rand_history(rng, kind, ms, n):
     return ((kind, ms), tuple(ops), tuple(sync))
 
 
+BURST_TMS = [None, None, None, None, ("rel", 0), ("rel", 1), ("abs", 0), ("abs", 1), ("zero",)]
+# how many waiters block on one queue at the same time: small, around typical container thresholds, and wide
+BURST_WIDTHS = [(3, 12), (12, 40), (28, 36), (40, 60), (60, 70), (65, 90), (90, 140), (120, 135), (250, 270)]
+
+
+def rand_burst(rng, kind, ms, width=None, first_side=None):
+    """Long history with WIDE waiter sets: phases of many getters (or, on a bounded queue, putters) blocking on the
+    queue at the same time - a share of them with deadlines, some cancelled - then clock advances (so that expired
+    waiters sit between live ones) and a serving phase (puts resp. gets) interleaved with new arrivals.  Same op
+    alphabet as rand_history; only the mix differs."""
+    m = QModel(kind, ms)
+    ops, sync = [], []
+
+    def emit(op):
+        m.apply(op)
+        ops.append(op)
+        if rng.random() < 0.3 and may_skip_settle(op):
+            sync.append(len(ops) - 1)
+
+    def pend(k):
+        return [i for i, x in enumerate(m.F) if x[2] == "P" and x[0] == k]
+
+    for phase in range(rng.choice([1, 1, 2])):
+        side = "get" if (ms == 0 or rng.random() < 0.5) else "put"
+        lo, hi = rng.choice(BURST_WIDTHS)
+        if phase == 0:          # the caller may fix width class and side of the first phase (coverage by construction)
+            lo, hi = width or (lo, hi)
+            side = first_side if (first_side and (first_side == "get" or ms > 0)) else side
+        n = rng.randint(lo, hi)
+        timed = rng.choice([0.0, 0.1, 0.3, 0.6])
+        if side == "put":
+            while not m.full():
+                emit(("putnw", rng.choice([0, 1, 2])))
+        else:
+            while m.items and not m._first("put"):
+                emit(("getnw",))
+
+        def waiter():
+            tm = rng.choice(BURST_TMS[4:]) if rng.random() < timed else None
+            if side == "get":
+                return ("anext",) if (tm is None and rng.random() < 0.1) else ("get", tm)
+            return ("put", tm, rng.choice([0, 1, 1, 2]))
+
+        def server():
+            r = rng.random()
+            if side == "get":
+                return ("putnw", rng.choice([0, 1, 2])) if r < 0.5 else ("put", rng.choice([None, None, ("rel", 0)]),
+                                                                         rng.choice([0, 1, 2]))
+            return ("getnw",) if r < 0.5 else ("get", rng.choice([None, None, ("rel", 0)])) if r < 0.9 else ("anext",)
+
+        # arrival phase
+        for _ in range(n):
+            emit(waiter())
+            r = rng.random()
+            if r < 0.04 and pend(side):
+                emit(("cancel", rng.choice(pend(side))))
+            elif r < 0.06:
+                emit(server())
+            elif r < 0.08 and m.pending_timed():
+                emit(("adv",))
+            elif r < 0.09:
+                emit(("td",))
+        for _ in range(rng.choice([0, 1, 1, 2])):
+            emit(("adv",))
+        for _ in range(rng.choice([0, 0, 1, 3])):
+            if pend(side):
+                emit(("cancel", rng.choice(pend(side))))
+        # serving phase: until (almost) all waiters of the burst have been served, with new arrivals in between
+        budget = len(pend(side)) + rng.choice([0, 2, 5])
+        leave = rng.choice([0, 0, 0, 3, 10])
+        while budget > 0 and len(pend(side)) > leave:
+            budget -= 1
+            emit(server())
+            r = rng.random()
+            if r < 0.10:
+                emit(waiter())
+            elif r < 0.13 and pend(side):
+                emit(("cancel", rng.choice(pend(side))))
+            elif r < 0.16 and m.pending_timed():
+                emit(("adv",))
+            elif r < 0.20:
+                emit(("td",))
+        if rng.random() < 0.3:
+            emit(("join", rng.choice([None, ("rel", 0)])))
+            for _ in range(rng.randint(0, m.unfinished + 1)):
+                emit(("td",))
+    return ((kind, ms), tuple(ops), tuple(sync))
+
+
 # --------------------------------------------------------------------------
 
 def shards(tier, seed):
@@ -316,6 +411,9 @@ def shards(tier, seed):
     n = 6000 if tier == "quick" else 800000
     for j in range(k):
         out.append({"kind": "rand", "n": n // k, "maxlen": 24 if tier == "quick" else 40, "j": j})
+    kb = 4 if tier == "quick" else 16
+    for j in range(kb):
+        out.append({"kind": "burst", "n": 14 if tier == "quick" else 500, "j": j})
     return out
 
 
@@ -330,6 +428,17 @@ def gen_cases(spec):
                 for hist in sh.leaves(alpha, QModel(kind, ms), p, spec["maxlen"]):
                     sync = tuple(i for i, op in enumerate(hist[:-1]) if may_skip_settle(op)) if spec["sync"] else ()
                     yield ((kind, ms), hist, sync)
+    elif spec["kind"] == "burst":
+        rng = core.rng_for(spec["seed"], PROP, f"burst{spec['j']}")
+        nw = len(BURST_WIDTHS)
+        for i in range(spec["n"]):
+            kind, ms = rng.choice(KINDS), rng.choice([0, 1, 1, 2, 3, 3])
+            if i < 2 * nw:
+                # every width class once per side in each pair of shards; the rest of the case stays random
+                side = "get" if (i // nw + spec["j"]) % 2 == 0 else "put"
+                yield rand_burst(rng, kind, ms if side == "get" else max(ms, 1), BURST_WIDTHS[i % nw], side)
+            else:
+                yield rand_burst(rng, kind, ms)
     else:
         rng = core.rng_for(spec["seed"], PROP, spec["j"])
         for _ in range(spec["n"]):
@@ -344,6 +453,14 @@ def directed_cases():
                          ("td",), ("join", None), ("td",), ("td",), ("td",)), ())
     yield (("lifo", 1), (("put", None, 0), ("put", None, 0), ("cancel", 1), ("put", None, 0), ("get", None), ("get", None),
                          ("get", ("zero",))), ())
+    # wide waiter sets: 70 getters (every fifth with a deadline) blocked at once, deadlines pass, then 75 puts;
+    # 80 putters blocked on a full maxsize-1 queue (some timed out), then everything is taken out
+    yield (("fifo", 0), tuple(("get", ("rel", 0) if i % 5 == 2 else None) for i in range(70)) + (("adv",),)
+           + tuple(("putnw", 0) for _ in range(75)), ())
+    yield (("fifo", 1), (("putnw", 0),) + tuple(("put", ("rel", 0) if i % 7 == 3 else None, 0) for i in range(80))
+           + (("adv",),) + tuple(("getnw",) for _ in range(72)), ())
+    yield (("prio", 2), (("putnw", 1), ("putnw", 1)) + tuple(("put", None, i % 3) for i in range(130))
+           + tuple(("get", None) for _ in range(140)) + tuple(("putnw", 0) for _ in range(8)), ())
 
 
 # --------------------------------------------------------------------------
@@ -402,6 +519,8 @@ async def _drive(case, ctx, lm, pos):
                         {"step_index": i, "step": step, "got": obs, "want": exp})
         if ms > 0 and obs[0] > ms:
             return fail("qsize-exceeds-maxsize", "queue holds more than maxsize items", {"step": step, "qsize": obs[0]})
+        m.stats["peakg"] = max(m.stats.get("peakg", 0), sum(1 for x in m.F if x[2] == "P" and x[0] == "get"))
+        m.stats["peakp"] = max(m.stats.get("peakp", 0), sum(1 for x in m.F if x[2] == "P" and x[0] == "put"))
         return True
 
     for i, step in enumerate(ops):
@@ -557,6 +676,11 @@ def run_case(case, ctx):
     ctx.count("blocked_get_served", res["bg"])
     ctx.count("blocked_put_served", res["bp"])
     ctx.count("join_completed_by_task_done", res["jd"])
+    for key, what in (("peakg", "getters"), ("peakp", "putters")):
+        w = res.get(key, 0)
+        if w > 8:
+            ctx.count(f"histories_peak_blocked_{what}_" + ("9_32" if w <= 32 else "33_64" if w <= 64 else
+                                                           "65_128" if w <= 128 else "over_128"))
     nontriv = res["blocked"] >= 1 and res["delivered"] >= 1
     ctx.mark(case, nontriv)
     if nontriv:
